@@ -317,7 +317,9 @@ func c03geom(r *h.Rand, kind int) orb.Geometry {
 	}
 }
 
-var c03keys = []string{"name", "Name", "NAME", "kind", "n", "N", "x", "class", "Class", "population", "ünï", "ÜNÏ", "a", "A", "", "tag:with:colon"}
+var c03shared = []interface{}{"europe", "germany", "berlin", 4.0}
+
+var c03keys = []string{"id", "ID", "name", "Name", "NAME", "kind", "n", "N", "x", "class", "Class", "population", "ünï", "ÜNÏ", "a", "A", "", "tag:with:colon"}
 
 func c03value(r *h.Rand) interface{} {
 	n := []int64{0, 1, 7, -1, 255, 256, 1 << 31, -(1 << 31), 1<<53 + 1, 42, math.MinInt64, math.MaxInt64, -7}[r.Intn(13)]
@@ -357,6 +359,9 @@ func c03value(r *h.Rand) interface{} {
 	case 16:
 		return map[string]interface{}{"b": 1, "a": []int{1, 2}}
 	case 17:
+		if r.Bool() {
+			return c03shared[:r.Intn(5)] // slices of different lengths over one backing array
+		}
 		return []int{}
 	default:
 		return float64(n)
